@@ -18,13 +18,13 @@ type stream struct {
 }
 
 type ctx struct {
-	w       *bufio.Writer
-	seed    uint64
+	w        *bufio.Writer
+	seed     uint64
 	thorough bool
-	name    string
-	n       int
-	stats   map[string]int
-	def     stream
+	name     string
+	n        int
+	stats    map[string]int
+	def      stream
 }
 
 // do executes one case on the implementation and emits `lhs | output`
